@@ -227,7 +227,15 @@ def run_op(pool, op):
         a, b = pool.stats[0], pool.stats[1]
         c = copy.deepcopy(a)
         c += b
-        res = {"sum": a + b, "isum": c, "three": sum(pool.stats[1:], start=pool.stats[0])}
+        from bob.learn.em import GMMStats
+
+        acc = GMMStats(a.n_gaussians, a.n_features)
+        for s_ in pool.stats:
+            acc += s_
+        shares = [f for f in ("n", "sum_px", "sum_pxx") for s_ in pool.stats if np.shares_memory(getattr(acc, f), getattr(s_, f))]
+        if shares:
+            raise AssertionError("ALIAS:accumulator shares %s with an addend" % shares)
+        res = {"sum": a + b, "isum": c, "three": sum(pool.stats[1:], start=pool.stats[0]), "acc": acc}
     elif name == "linear_scoring":
         ubm = pool.ubm
         res = {"s": linear_scoring(pool.models, ubm, pool.stats, pool.offsets, op["flag"]),
@@ -328,7 +336,12 @@ def c_pool(ctx, case):
     for i, op in enumerate(case["ops"]):
         what = "call %d (%s%s)" % (i + 1, op["op"], ", dask" if op["dask"] else "")
         before = pool.snapshot()
-        res, probe = run_op(pool, op)
+        try:
+            res, probe = run_op(pool, op)
+        except AssertionError as e:
+            if str(e).startswith("ALIAS:"):
+                ctx.fail("%s: %s" % (what, str(e)[6:]), "aliasing:" + op["op"])
+            raise
         first = flat(res)
         after = pool.snapshot()
         for k in before:
